@@ -584,7 +584,7 @@ def Implies(a, b):
 def Ite(c, a, b):
     """Integer if-then-else without forking."""
     if isinstance(c, SymBool):
-        return SymInt(z3.If(c.e, _z(a), _z(b)))
+        return _mk(z3.If(c.e, _z(a), _z(b)))
     return a if c else b
 
 
@@ -607,6 +607,15 @@ def _pow2(o):
     return o > 0 and (o & (o - 1)) == 0
 
 
+def _mk(e):
+    """Result of an arithmetic operation: a Python int when the term is a numeral (a SymInt wrapping a constant would hash
+    differently from the equal int and be missed by dict lookups), a SymInt otherwise."""
+    e = z3.simplify(e)
+    if z3.is_int_value(e):
+        return e.as_long()
+    return SymInt(e)
+
+
 class SymInt:
     __slots__ = ("e",)
 
@@ -618,13 +627,13 @@ class SymInt:
         z = _z(o)
         if z is None:
             return NotImplemented
-        return SymInt(f(self.e, z))
+        return _mk(f(self.e, z))
 
     def _rbin(self, o, f):
         z = _z(o)
         if z is None:
             return NotImplemented
-        return SymInt(f(z, self.e))
+        return _mk(f(z, self.e))
 
     def __add__(self, o):
         return self._bin(o, lambda a, b: a + b)
@@ -651,16 +660,16 @@ class SymInt:
         return self.__mul__(o)
 
     def __neg__(self):
-        return SymInt(-self.e)
+        return _mk(-self.e)
 
     def __pos__(self):
         return self
 
     def __abs__(self):
-        return SymInt(z3.If(self.e >= 0, self.e, -self.e))
+        return _mk(z3.If(self.e >= 0, self.e, -self.e))
 
     def __invert__(self):
-        return SymInt(-self.e - 1)
+        return _mk(-self.e - 1)
 
     @staticmethod
     def _posconst(o, what):
@@ -678,24 +687,24 @@ class SymInt:
         o = self._posconst(o, "//")
         if o <= 0:
             raise Unsupported("// by non-positive constant")
-        return SymInt(_dm(self.e, o)[0])
+        return _mk(_dm(self.e, o)[0])
 
     def __mod__(self, o):
         o = self._posconst(o, "%")
         if o <= 0:
             raise Unsupported("% by non-positive constant")
-        return SymInt(_dm(self.e, o)[1])
+        return _mk(_dm(self.e, o)[1])
 
     def __divmod__(self, o):
         return self // o, self % o
 
     def __rshift__(self, o):
         o = self._posconst(o, ">>")
-        return SymInt(_dm(self.e, 1 << o)[0])
+        return _mk(_dm(self.e, 1 << o)[0])
 
     def __lshift__(self, o):
         o = self._posconst(o, "<<")
-        return SymInt(self.e * (1 << o))
+        return _mk(self.e * (1 << o))
 
     def __and__(self, o):
         o = self._posconst(o, "&")
@@ -704,17 +713,17 @@ class SymInt:
         if o == -1:
             return self
         if o > 0 and (o & (o + 1)) == 0:  # 2^k - 1
-            return SymInt(_dm(self.e, o + 1)[1])
+            return _mk(_dm(self.e, o + 1)[1])
         if o < 0 and _pow2(-o):  # -2^k
-            return SymInt(self.e - _dm(self.e, -o)[1])
+            return _mk(self.e - _dm(self.e, -o)[1])
         if _pow2(o):  # single bit
-            return SymInt(_dm(_dm(self.e, o)[0], 2)[1] * o)
+            return _mk(_dm(_dm(self.e, o)[0], 2)[1] * o)
         if o > 0:
             # contiguous run of ones 2^a*(2^b-1)
             low = o & -o
             run = o // low
             if (run & (run + 1)) == 0:
-                return SymInt(_dm(_dm(self.e, low)[0], run + 1)[1] * low)
+                return _mk(_dm(_dm(self.e, low)[0], run + 1)[1] * low)
         raise Unsupported("& with mask %d" % o)
 
     __rand__ = __and__
@@ -724,9 +733,9 @@ class SymInt:
         if o == 0:
             return self
         if o < 0 and _pow2(-o):
-            return SymInt(o + _dm(self.e, -o)[1])
+            return _mk(o + _dm(self.e, -o)[1])
         if _pow2(o):
-            return SymInt(self.e + o * (1 - _dm(_dm(self.e, o)[0], 2)[1]))
+            return _mk(self.e + o * (1 - _dm(_dm(self.e, o)[0], 2)[1]))
         raise Unsupported("| with %d" % o)
 
     __ror__ = __or__
